@@ -224,7 +224,7 @@ func decodeType(fold []byte, state *stateDecode) (*decoder, []byte, error) {
 				return value, packet, nil
 			}
 
-			if zeroSize := decKey.Type.Size() == 0 && decValue.Type.Size() == 0; zeroSize {
+			if zeroSize := zeroWire(decKey.Type) && zeroWire(decValue.Type); zeroSize {
 				// a zero-size key type has a single value: at most one entry,
 				// and it takes no bytes on the wire
 				if n > 1 {
@@ -330,7 +330,7 @@ func decodeType(fold []byte, state *stateDecode) (*decoder, []byte, error) {
 				return value, packet, nil
 			}
 
-			if decItem.Type.Size() == 0 {
+			if zeroWire(decItem.Type) {
 				// zero-size items ([0]T, empty struct) take no bytes on the wire
 				// and have a single value: nothing to decode
 				x := reflect.MakeSlice(vtype, n, n)
@@ -404,7 +404,7 @@ func decodeType(fold []byte, state *stateDecode) (*decoder, []byte, error) {
 
 		fdec := func(value *reflect.Value, packet []byte, state *stateDecode) (*reflect.Value, []byte, error) {
 			if len(packet) == 0 {
-				if vtype.Size() == 0 {
+				if zeroWire(vtype) {
 					// no items, or zero-size items: nothing on the wire
 					return value, packet, nil
 				}
@@ -416,7 +416,7 @@ func decodeType(fold []byte, state *stateDecode) (*decoder, []byte, error) {
 				value = &x
 			}
 
-			if decItem.Type.Size() == 0 {
+			if zeroWire(decItem.Type) {
 				// zero-size items take no bytes on the wire and have a single
 				// value: nothing to decode, whatever the declared count is
 				return value, packet, nil
